@@ -304,6 +304,88 @@ def expected2 (rows : Rows) (argv : List String) : Option String :=
       | none => some bad
   | _ => none
 
+/-! ### `stats mutations list [--aa] --ref-sequence <name or file>` (cmd/stats_mutations_list.go) -/
+
+/-- the first alignment of a sequential relaxed Phylip input: header `n L`, then `n` lines `name  sequence` -/
+def parsePhylipFirst (lines : List String) : Rows :=
+  match lines.dropWhile fun l => ((l.splitOn " ").filter (· != "")).length != 2 with
+  | h :: t =>
+    match ((h.splitOn " ").filter (· != "")).head? >>= String.toNat? with
+    | some k => (t.take k).filterMap fun l =>
+        match (l.splitOn " ").filter (· != "") with
+        | [nm, sq] => some (nm, bytesOfString sq)
+        | _ => none
+    | none => []
+  | [] => []
+
+/-- one line of the list: the name, then (after a tab, shown as a blank) the entries `<ref><position><alternative>`
+separated by commas -/
+def mutLine (name : String) (l : List (Byte × String × List Byte)) : String :=
+  name ++ (if l.isEmpty then "" else " " ++ ",".intercalate (l.map fun (a, p, alt) => stringOfBytes [a] ++ p ++ stringOfBytes alt)) ++ "|"
+
+/-- `fl` = the arguments behind `stats mutations`, with the sub-command `list` among them.  Outer `none` = not
+modelled; `some none` = a failing status: no `--ref-sequence` (its default, the word `none`), a name that is neither a
+row of the alignment nor a file of the working directory, a file without sequences, a reference of another length,
+`--aa` on an alignment that is not nucleotidic, a character that is no nucleotide code (without `--aa`).  The reference
+is the row of that name - it is not listed - else the first sequence of the FASTA file of that name; only the first
+alignment of the input is read. -/
+def mutListExpected (rows : Rows) (files : List (String × String)) (fl : List String) : Option (Option String) := do
+  let ref := (opt fl "--ref-sequence").getD (← effective "statMutationsCmd" "ref-sequence")
+  let aaDefault ← effective "statMutationsListCmd" "aa"
+  if !(fl.all fun a => a == "list" || a == "--aa" || a == "--ref-sequence" || a == ref) || !fl.contains "list" then none
+  -- a flag of the sub-command in front of it swallows the word `list`
+  if (fl.takeWhile (· != "list")).contains "--aa" then none
+  if rows.isEmpty then none
+  let aa := flag fl "--aa" || aaDefault == "true"
+  if ref == "none" then some none else
+  let refseq : Option Seq := match findRow ref rows with
+    | some s => some s
+    | none => match files.find? (·.1 == ref) with
+      | some f => ((parseFasta (f.2.splitOn "|")).head?).map Prod.snd
+      | none => none
+  match refseq with
+  | none => some none
+  | some r =>
+    let alpha := autoAlphabet (rows.map Prod.snd)
+    if alpha != NUCLEOTIDS && alpha != AMINOACIDS then none else
+    let one (q : Seq) : Option (List (Byte × String × List Byte)) :=
+      if aa then (listMutationsVsRefAA alpha q r).map fun l => l.map fun (a, p, alt) => (a, toString p, alt)
+      else (listMutationsVsRef alpha q r).map fun l => l.map fun (a, p, alt) => (a, toString p, alt)
+    match (rows.filter fun x => x.1 != ref).mapM fun x => (one x.2).map (mutLine x.1) with
+    | some ls => some (some (String.join ls))
+    | none => some none
+
+/-- `stats mutations [--unique] [--ref-sequence <name or file>]` (cmd/stats_mutations.go) without `--count-profile`:
+with a reference (it has priority over `--unique`) one line `name<TAB>count` per row, the reference row included;
+else with `--unique` the characters unique in their column; else a failing status.  The reference is resolved as for
+`list`. -/
+def mutCountExpected (rows : Rows) (files : List (String × String)) (fl : List String) : Option (Option String) := do
+  let ref := (opt fl "--ref-sequence").getD (← effective "statMutationsCmd" "ref-sequence")
+  let uniqueDefault ← effective "statMutationsCmd" "unique"
+  let profDefault ← effective "statMutationsCmd" "count-profile"
+  if !(fl.all fun a => a == "--unique" || a == "--ref-sequence" || a == ref) || profDefault != "none" then none
+  if rows.isEmpty then none
+  let L := lenOf rows
+  let alpha := autoAlphabet (rows.map Prod.snd)
+  if alpha != NUCLEOTIDS && alpha != AMINOACIDS then none else
+  if ref != "none" then
+    let refseq : Option Seq := match findRow ref rows with
+      | some s => some s
+      | none => match files.find? (·.1 == ref) with
+        | some f => ((parseFasta (f.2.splitOn "|")).head?).map Prod.snd
+        | none => none
+    match refseq with
+    | none => some none
+    | some r =>
+      match rows.mapM (fun x => (numMutationsVsRef alpha x.2 r).map fun k => x.1 ++ " " ++ toString k ++ "|") with
+      | some ls => some (some (String.join ls))
+      | none => some none
+  else if flag fl "--unique" || uniqueDefault == "true" then
+    match numMutationsUnique rows L alpha with
+    | some u => some (some (String.join (rows.zipIdx.map fun (r, i) => r.1 ++ " " ++ toString (u.getD i 0) ++ "|")))
+    | none => none
+  else some none
+
 /-- commands that read or write further files: `cli_libf <stdin> <files> <argv…>`; the expected answer lists the
 files the command must have written (`files=name=content;;…`, sorted by name) -/
 def expectedF (rows : Rows) (files : List (String × String)) (argv : List String) : Option String :=
@@ -366,6 +448,11 @@ def expectedF (rows : Rows) (files : List (String × String)) (argv : List Strin
     match ← cleanSitesResult rows cut fl with
     | none => some badF
     | some r => some (okF r.rows (← filesPart (outs.map fun o => (o.1, numLines (if o.2 then r.kept else r.removed)))))
+  | "stats" :: "mutations" :: fl => do
+    -- `list` with a reference read from a file of the working directory (or a name that is neither a row nor a file)
+    match ← (if fl.contains "list" then mutListExpected rows files fl else mutCountExpected rows files fl) with
+    | some out => some ("rc=0 out=" ++ out ++ " files=")
+    | none => some badF
   | ["codonalign", "-f", ntf] => do
     -- cmd/codonalign.go: the protein alignment on stdin, the unaligned nucleotide sequences in the file; both
     -- alphabets are the ones the readers detect; any refusal of `CodonAlign` is a failing status
@@ -489,6 +576,25 @@ def handle : Handler := fun op args impl =>
     match allelesVerdict (parseFasta (stdin.splitOn "|")) impl with
     | some a => some a
     | none => some ⟨"unmodelled", "na"⟩
+  | "cli_lib", stdin :: "stats" :: "mutations" :: fl =>
+    if fl.contains "list" then
+      -- `-p` (last): a sequential Phylip input, possibly with several alignments: the first one is read
+      let phy := fl.getLast? == some "-p"
+      let rows := if phy then parsePhylipFirst (stdin.splitOn "|") else parseFasta (stdin.splitOn "|")
+      match mutListExpected rows [] (if phy then fl.dropLast else fl) with
+      | some (some out) => let m := "rc=0 out=" ++ out; some ⟨m, verdictOf (impl == m) failCli⟩
+      | some none => some ⟨bad, verdictOf (impl == bad) failCli⟩
+      | none => some ⟨"unmodelled", "na"⟩
+    else
+    let rows := parseFasta (stdin.splitOn "|")
+    -- the alphabet is the one the reader detects (`expected2` takes it for nucleotides)
+    match mutCountExpected rows [] fl with
+    | some (some out) => let m := "rc=0 out=" ++ out; some ⟨m, verdictOf (impl == m) failCli⟩
+    | some none => some ⟨bad, verdictOf (impl == bad) failCli⟩
+    | none =>
+      match expected2 rows ("stats" :: "mutations" :: fl) with
+      | some m => some ⟨m, verdictOf (impl == m) "command-line-differs-from-library-model"⟩
+      | none => some ⟨"unmodelled", "na"⟩
   | "cli_lib", stdin :: argv =>
     let rows := parseFasta (stdin.splitOn "|")
     match (expected rows argv).orElse fun _ => expected2 rows argv with
